@@ -71,34 +71,33 @@ rfbRegisterSecurityHandler(rfbSecurityHandler* handler)
 }
 
 /*
- * This method unregisters a list of security types. 
- * These security types won't be available for any new
- * client connection. 
+ * This method unregisters a security type (or, for handlers that are not
+ * registered, a caller-built list of them).
+ * These security types won't be available for any new client connection.
+ *
+ * Once a handler is registered its ->next is the link of the global list, so
+ * it must not be followed here: that would unregister every handler behind
+ * it as well (including the built-in one some client has just been offered).
+ * The link is cleared, otherwise a later rfbRegisterSecurityHandler of this
+ * handler would re-register its former successors.
  */
 void
 rfbUnregisterSecurityHandler(rfbSecurityHandler* handler)
 {
-	rfbSecurityHandler *cur = NULL, *pre = NULL;
+	rfbSecurityHandler **link;
 
 	if(handler == NULL)
 		return;
 
-	if(securityHandlers == handler) {
-		securityHandlers = securityHandlers->next;
-		rfbUnregisterSecurityHandler(handler->next);
-		return;
-	}
-
-	cur = pre = securityHandlers;
-
-	while(cur) {
-		if(cur == handler) {
-			pre->next = cur->next;
-			break;
+	for(link = &securityHandlers; *link; link = &(*link)->next) {
+		if(*link == handler) {
+			*link = handler->next;
+			handler->next = NULL;
+			return;
 		}
-		pre = cur;
-		cur = cur->next;
 	}
+
+	/* not registered: handler may head a list built by the caller */
 	rfbUnregisterSecurityHandler(handler->next);
 }
 
